@@ -117,7 +117,7 @@ CHECKS.update({
  "C02": dict(bounded_only("", "DESIGN.md §5 C02"),
         text="Lemmas about the real line patterns are proved for all lines by SMT (dumped 'Key: first' / 'Key:' lines match _single / _multi "
              "and the groups capture exactly key and first line; continuation lines never start a field and are kept; encoded field lines "
-             "are never armor, separator or initial-blank lines), and split_gpg_and_payload is verified from its AST to pass exactly the given lines on as payload whenever none of them matches the armor or separator pattern. The field-collecting loop, the input forms, armor stripping, comments and "
+             "are never armor, separator or initial-blank lines), and split_gpg_and_payload is verified from its AST to pass exactly the given lines on as payload whenever none of them matches the armor or separator pattern; the field-collecting loop of _internal_parser is verified against a recursive specification over the payload lines. Comment skipping, decoding, the input forms, armor stripping, comments and "
              "iter_paragraphs are decided by a bounded stand-in: generated paragraphs and multi-paragraph documents are dumped and "
              "re-parsed in six input forms x {plain, clearsigned} x {comments interleaved or not}.",
         technique="regex-to-SMT match and capture lemmas on the real patterns + bounded stand-in (generated documents)"),
